@@ -84,6 +84,17 @@ func (its *MongoCollections) GetOperations(
 	return opList, sseqList, nil
 }
 
+// DeleteOperationsAfter deletes the operation documents of a datatype whose server sequence number exceeds sseq.
+func (its *MongoCollections) DeleteOperationsAfter(ctx iface.OrdaContext, duid string, sseq uint64) errors.OrdaError {
+	f := schema.GetFilter().
+		AddFilterEQ(schema.OperationDocFields.DUID, duid).
+		AddFilterGTE(schema.OperationDocFields.Sseq, sseq+1)
+	if _, err := its.operations.DeleteMany(ctx, f); err != nil {
+		return errors.ServerDBQuery.New(ctx.L(), err.Error())
+	}
+	return nil
+}
+
 // PurgeOperations purges operations for the specified datatype.
 func (its *MongoCollections) PurgeOperations(ctx iface.OrdaContext, collectionNum int32, duid string) errors.OrdaError {
 	f := schema.GetFilter().
